@@ -33,6 +33,7 @@ SPEC_MODULES = {
     "C12": ["specs.c12_memory"],
     "C13": ["specs.c12_memory"],
     "C16": ["specs.c16_buffered"],
+    "C20": ["specs.c20_lru"],
 }
 
 
